@@ -2260,10 +2260,10 @@ impl KotoVm {
             (Str(a), Str(b)) => a == b,
             (Range(a), Range(b)) => a == b,
             (List(a), List(b)) => {
-                let a = a.clone();
-                let b = b.clone();
-                let data_a = a.data();
-                let data_b = b.data();
+                // Comparing the elements can run script code that accesses the lists
+                // (via overridden operators), so copies of the lists' data are compared.
+                let data_a = a.data().clone();
+                let data_b = b.data().clone();
                 self.compare_value_ranges(&data_a, &data_b)?
             }
             (Tuple(a), Tuple(b)) => {
@@ -2312,10 +2312,10 @@ impl KotoVm {
             (Str(a), Str(b)) => a != b,
             (Range(a), Range(b)) => a != b,
             (List(a), List(b)) => {
-                let a = a.clone();
-                let b = b.clone();
-                let data_a = a.data();
-                let data_b = b.data();
+                // Comparing the elements can run script code that accesses the lists
+                // (via overridden operators), so copies of the lists' data are compared.
+                let data_a = a.data().clone();
+                let data_b = b.data().clone();
                 !self.compare_value_ranges(&data_a, &data_b)?
             }
             (Tuple(a), Tuple(b)) => {
@@ -2361,8 +2361,8 @@ impl KotoVm {
                 (Some(captures_a), Some(captures_b)) => {
                     let captures_a = captures_a.clone();
                     let captures_b = captures_b.clone();
-                    let data_a = captures_a.data();
-                    let data_b = captures_b.data();
+                    let data_a = captures_a.data().clone();
+                    let data_b = captures_b.data().clone();
                     self.compare_value_ranges(&data_a, &data_b)
                 }
                 _ => Ok(false),
@@ -2400,7 +2400,15 @@ impl KotoVm {
             return Ok(false);
         }
 
-        for (key_a, value_a) in map_a.data().iter() {
+        // Comparing the values can run script code that accesses the maps
+        // (via overridden operators), so the maps aren't kept borrowed during the comparison.
+        let entries_a: Vec<_> = map_a
+            .data()
+            .iter()
+            .map(|(key, value)| (key.clone(), value.clone()))
+            .collect();
+
+        for (key_a, value_a) in entries_a.iter() {
             let Some(value_b) = map_b.get(key_a) else {
                 return Ok(false);
             };
